@@ -4,20 +4,26 @@ import vlib, schedlib, c07lib
 
 META = {
     "category": "proof",
-    "text": "Lean theorems over a labelled transition system of the threaded decoder protocol (stream_decoder_mt.c/outqueue.c at "
-            "mutex-critical-section granularity; all interleavings = all reachable states): queue order = Block order, finished "
-            "buffers are final, failed workers never return to the free list, a worker's input buffer is never freed while the "
-            "main thread may write it, delivered output is always a prefix of the single-threaded output, final status/output equal "
-            "the single-threaded ones, every non-final reachable state has an enabled non-expiry transition, every "
-            "condition-falsifying step signals under the right mutex. Tie: the real decoder runs under a controlled scheduler "
-            "(link-time pthread interposition, seeded random / PCT schedules, forced time-outs and spurious wake-ups, deadlock = all "
-            "threads blocked) on valid, corrupted, truncated, size-less and concatenated inputs; output bytes and status must equal "
-            "lzma_stream_decoder on the same bytes (direct oracle) and the H3 protocol-event trace must be accepted by the model "
-            "(trace inclusion). Thorough tier repeats under real scheduling in a ThreadSanitizer build.",
+    "text": "Lean theorems over a labelled transition system of the threaded decoder protocol (Model/MtDec.lean: stream_decoder_mt.c + "
+            "outqueue.c at mutex-critical-section granularity; all interleavings incl. spurious wake-ups and timed-wait expiry = all "
+            "reachable states), by invariant induction: queue order = Block order, a finished outbuf is complete/final and carries its "
+            "Block's verdict, failed workers never return to the free list, thr->in is never freed while the main thread may write it "
+            "(CVE-2025-31115 shape), delivered output is always a prefix of the single-threaded output (also with fail-fast), the final "
+            "status and output equal the single-threaded ones (errors only after all earlier output; the pending-error placeholder never "
+            "leaks), no lost wake-up (a waiter without pending signal has its wait condition true, for workers and for the main thread). "
+            "Deadlock freedom is stated and partially proved. Tie to the code: protocol constants regenerated from the source (Gen/C07.lean, "
+            "bridged by decide); the real decoder runs under a controlled scheduler (link-time pthread interposition, seeded random / PCT / "
+            "non-preemptive schedules, forced time-outs and spurious wake-ups, deadlock = all threads blocked) on valid, corrupted, "
+            "truncated, size-less, per-Block-filter and concatenated inputs, and must deliver exactly the bytes and status of "
+            "lzma_stream_decoder on the same input (direct oracle, independent of Lean); with hook H3 the protocol-event trace of every run "
+            "is replayed through the model's step function with cross-checks of every value the events carry (trace inclusion). "
+            "Thorough tier repeats under real scheduling in a ThreadSanitizer build.",
     "note": "Trusted: Lean kernel + propext/Classical.choice/Quot.sound; the pthread semantics assumed by harness/vsched.c (mutual "
             "exclusion, atomic release on wait, signal wakes >= 1 waiter, spurious wake-ups); schedules are sampled, not enumerated, on "
             "the C side (the Lean theorems quantify over all of them for the model); preemption only at synchronisation operations, "
-            "data races between them are observed by TSan at run time only.",
+            "data races between them are observed by TSan at run time only (two genuine races are known findings). Not modelled: "
+            "allocation failure paths, LZMA_*_CHECK informational returns, the wrapper's LZMA_BUF_ERROR (truncated input is covered by "
+            "the direct oracle only), output-buffer cache, mem_cached.",
     "technique": "Lean 4 invariant proofs over an LTS + controlled-scheduler differential testing + trace inclusion + TSan",
 }
 
@@ -448,8 +454,8 @@ def run_cases(ctx, exe, cases, label, model_ok, tsan=False):
             trace_jobs = [j for j in trace_jobs if len(j[3]["ev"]) < 150000]
             if len(trace_jobs) > 1000:
                 trace_jobs = trace_jobs[::max(1, len(trace_jobs) // 1000)]
-        elif len(trace_jobs) > 20000:
-            trace_jobs = trace_jobs[::max(1, len(trace_jobs) // 20000)]
+        elif len(trace_jobs) > 8000:
+            trace_jobs = trace_jobs[::max(1, len(trace_jobs) // 8000)]
         trace_inclusion(ctx, trace_jobs, label)
     return nbad
 
